@@ -345,7 +345,10 @@ def hexToUInt64 (s : String) : UInt64 :=
 
 def fullCfg (toks : List String) : Cfg :=
   let c := cfgOf toks
-  { c with mutators := G.mutsOfMask (kvNat toks "mask") c.unsafeMut,
+  let mu := match kv toks "mu" with
+    | some v => v == "1"
+    | none => c.unsafeMut
+  { c with mutators := G.mutsOfMask (kvNat toks "mask") mu,
            rateBits := G.clampRate (hexToUInt64 (kvD toks "rate" "3fb999999999999a")) }
 
 def firstDiff : List UInt8 → List UInt8 → Nat → Option Nat
@@ -510,6 +513,17 @@ def mutContract (kind method value result : String) (unsafeMode : Bool) : Option
     else none
   | _, _ => some "this mutator must not fire for this value kind"
 
+/-- C16 "leaves other opcodes alone": an opcode counts as value-pushing when the reference
+machine's effect is to put a freshly built data object on the stack (pickletools stack_after),
+independently of the implementation's own table -/
+def pushesData (o : Op) : Bool :=
+  match Ref.step { stack := [.mark, .any, .any, .any, .mark, .any, .any] } ⟨o, .none⟩ with
+  | .ok (r, _) => (match r.stack.head? with
+      | some k => Ref.data k && !(o == .dup || o == .pop || o == .append || o == .setItem || o == .build ||
+          o == .get || o == .binGet || o == .longBinGet)
+      | none => false)
+  | .error _ => false
+
 def mutLine (toks : List String) : String :=
   let kind := kvD toks "kind" "?"
   let u := kvBool toks "unsafe"
@@ -536,7 +550,12 @@ def mutLine (toks : List String) : String :=
            else match Lex.lexOne (out.drop preB.length) with
              | .ok (ins, []) =>
                (match deltaB.head?.bind Gen.opcodeToType, Gen.opcodeToType (Gen.asU8 ins.op) with
-                | some t0, some t1 => if t0 == t1 then some "replacement pushes the same type" else none
+                | some t0, some t1 =>
+                  if t0 == t1 then some "replacement pushes the same type"
+                  else if !((deltaB.head?.bind Lex.ofCode?).map pushesData).getD false then
+                    some "a non-value-pushing opcode was rewritten"
+                  else if !pushesData ins.op then some "replacement is not a value-pushing opcode"
+                  else none
                 | none, _ => some "a non-value-pushing opcode was rewritten"
                 | _, none => some "replacement is not a value-pushing opcode")
              | _ => some "replacement is not exactly one complete instruction"
@@ -592,6 +611,50 @@ def mutLine (toks : List String) : String :=
         if (modelRes.1 == res || (isNaNRes modelRes.1 && isNaNRes res)) && toString modelRes.2 == left then "mut ok arb"
         else fail s!"model={modelRes.1}:left={modelRes.2}:impl_left={left}"
 
+/-! ### steering: fuzzer bytes that make the generator choose a given opcode sequence -/
+
+/-- plan item `Name[@idx][:hexextra]`: choose `Name` (at position `idx` of the valid list if given,
+else at its position in the model's valid list), then feed `hexextra`, then zeros -/
+def steerLine (mods : List (List UInt8 × List UInt8)) (toks : List String) : String :=
+  let c := fullCfg toks
+  let X : G.Ext := { mods := mods, fmt := fmtOf [] }
+  let plan := (kvD toks "plan" "").splitOn ","
+  let start : List UInt8 := if c.version ≥ 4 then [if kvBool toks "frame" then 1 else 0] else []
+  let rec go (items : List String) (g : G.GenSt) (acc : List UInt8) (k : Nat) : Except String (List UInt8) :=
+    match items with
+    | [] => .ok acc
+    | it :: rest =>
+      let (nameIdx, extra) := match it.splitOn ":" with
+        | [a, b] => (a, unhex b)
+        | _ => (it, [])
+      let (name, forced) := match nameIdx.splitOn "@" with
+        | [a, b] => (a, b.toNat?)
+        | _ => (nameIdx, none)
+      match Op.ofName? name with
+      | none => .error s!"step {k}: unknown opcode {name}"
+      | some op =>
+        let valid := validOps (Gen.table c.version) c g.sim
+        let idx? := match forced with
+          | some i => some i
+          | none => valid.findIdx? (· == op)
+        match idx? with
+        | none => .error s!"step {k}: {name} is not valid in the model at stack {stackStr g.sim.stack}"
+        | some idx =>
+          let probe : List UInt8 := [UInt8.ofNat idx] ++ extra ++ List.replicate 96 0
+          -- the choice byte is consumed by chooseIndex; the emission consumes from the rest
+          let (ci, afterChoice) := Arb.E.chooseIndex probe valid.length
+          if ci != idx && forced.isNone then .error s!"step {k}: cannot encode index {idx} among {valid.length}"
+          else
+            let chosen := if forced.isSome then op else (valid.getD ci op)
+            match G.emitAndProcess Arb.E X c g chosen afterChoice with
+            | .error e => .error s!"step {k}: model panics {reprStr e}"
+            | .ok (g', restBytes) =>
+              let consumed := probe.length - restBytes.length
+              go rest g' (acc ++ probe.take consumed) (k + 1)
+  match go (plan.filter (· != "")) { sim := initState c.version } start 0 with
+  | .ok bytes => s!"steer ok n={(plan.filter (· != "")).length} bytes={if bytes.isEmpty then "-" else hexOf bytes}"
+  | .error e => s!"steer FAIL {san e}"
+
 def handle (mods : List (List UInt8 × List UInt8)) (line : String) : Option String :=
   let l := line.trimAscii.toString
   if l.isEmpty then none else
@@ -603,6 +666,7 @@ def handle (mods : List (List UInt8 × List UInt8)) (line : String) : Option Str
   | some "gen" => some (genLine mods toks)
   | some "src" => some (srcLine toks)
   | some "mut" => some (mutLine toks)
+  | some "steer" => some (steerLine mods toks)
   | some other => some s!"unknown request {other}"
   | none => none
 
